@@ -100,7 +100,7 @@ Qed.
 (* ---------- variants, environment ---------- *)
 Definition variant_sound (vr : variant) : bool :=
   vr_hex_z vr && vr_key_z vr && vr_sel_z vr && vr_hash_z vr && vr_uuid_canon vr && vr_year_pad vr &&
-  vr_ext_nonempty vr.
+  vr_ext_nonempty vr && vr_sock_int vr.
 
 Definition env_ok (ev : env) : bool :=
   Calendar.in_range (e_now ev) && valid_uuid_text V21 (e_uuid5 ev).
